@@ -101,4 +101,16 @@ META = {
         assumptions=["reference interpreter models strict coercion with the first error aborting (retorts are run with DebugTrail.DISABLE)",
                      "router monitor wraps OperatingRetort._create_router / BasicRequestBus._send_inner / *Router.route_handler from the harness; its own call counts are asserted (router_routes)"],
     ),
+    "C10": _m(
+        "EXHAUSTIVE sweep: universe of 15 predicate atoms (concrete class, subclass, ABC, runtime protocol, int, list, bare List, NewType, List[int], Optional[int], "
+        "identifier strings, regex strings, re.Pattern) -> all expressions of nesting <= 1 (quick: 711 + all 19^2 two-element P chains + 600 sampled three-element chains; "
+        "thorough: nesting <= 2 and all 19^3 chains), each spelled either with raw checker algebra or with P algebra, x location stacks over 13 types x 7 location forms "
+        "(91 locations): all depth-1, 900 sampled (thorough: all 8281) depth-2, 400 (3000) depth-3 stacks; documented identities and pointwise-combinator laws compared as whole "
+        "truth tables; integration leg with marker loaders on nested models (10 predicates x 8 field sites); random expressions of nesting 3 on stacks of depth <= 5 beyond. "
+        "evaluations = (expression, stack) pairs judged; distinct = expression (each judged on the whole stack set); non-trivial = not a bare atom",
+        cases=(40, 400), budget=(50, 420),
+        minimums={"quick": {"evaluations": 1500000, "expressions": 1500, "identity_tables": 150, "integration_preds": 10, "distinct_nontrivial": 1400}},
+        exhaustive={"quick": True, "thorough": True},
+        assumptions=["reference evaluator uses typing introspection only (no normalize_type); stacks are built with adaptix's own location classes (the observation point named by the property)"],
+    ),
 }
